@@ -45,6 +45,7 @@ type FuncVal struct {
 	Fn       *ssa.Function // nil = nil func
 	Bindings []Value
 	Builtin  *ssa.Builtin
+	Noop     bool // a callable that does nothing (context.CancelFunc of the context model)
 }
 type TupleVal struct{ Vals []Value }
 type OpaqueVal struct {
